@@ -30,7 +30,7 @@ Proof.
   - destruct (tpl_exec r lbls) as [b|]; cbn [option_map]; [|discriminate]. intros [= <-].
     change (flat_map _ r) with (pieces r). cbn [app render_pieces]. now rewrite (IH b eq_refl).
   - unfold act_exec. destruct cmds as [|c0 cr]; [discriminate|]. destruct c0 as [|o0 orr]; [discriminate|].
-    destruct o0 as [n0 ch0|]; [|discriminate]. destruct ch0; [|discriminate]. destruct orr; [|discriminate].
+    destruct o0 as [n0 ch0| |fn0]; [|discriminate|discriminate]. destruct ch0; [|discriminate]. destruct orr; [|discriminate].
     destruct cr; [|discriminate].
     destruct (tpl_exec r lbls) as [b|]; [|discriminate]. intros [= <-].
     change (flat_map _ r) with (pieces r). cbn [act_fields flat_map map app render_pieces]. now rewrite (IH b eq_refl).
